@@ -195,6 +195,8 @@ def run(ctx, replay=None):
         progs = load_corpus(ctx.prop)
         per_profile = {'corpus': len(progs)}
         n_total = cfg['n'][0 if quick else 1]
+        if quick and getattr(ctx, 'src_changes', None):
+            n_total *= 2          # the source differs from the recorded tree: draw more programs
         profs = cfg['profiles']
         for pi, pf in enumerate(profs):
             k = n_total // len(profs)
